@@ -52,3 +52,33 @@ Proof.
   exists {| parse_date := fun _ => None; parse_datetime := fun _ => None; parse_uuid := fun _ => None |}, [], (fun _ _ => None), (fun _ _ => None), 0%N, VTInt, [JInt (1)%Z], (JBool true).
   vm_compute. repeat split; discriminate.
 Qed.
+
+(* ---- which operations exist: PropertyProtocol.validate_location (parser/properties/protocol.py:70-76) over the regenerated
+   per-class facts of GenKinds (_allowed_locations of each property class). A parameter that fails it drops its whole operation
+   with a warning, so the set of generated operations depends on these facts. *)
+Inductive ploc := LQuery | LPath | LHeader | LCookie.
+Definition loc_allowed (k : pk) (l : ploc) : bool :=
+  let f := kfacts_of k in
+  match l with LQuery => kf_loc_query f | LPath => kf_loc_path f | LHeader => kf_loc_header f | LCookie => kf_loc_cookie f end.
+Definition validate_location (k : pk) (l : ploc) (required : bool) : bool :=
+  loc_allowed k l && match l with LPath => required | _ => true end.
+(* the template macros that decide how a value of the kind is put on the wire in each position *)
+Definition wire_macros (k : pk) : list bool :=
+  let f := kfacts_of k in [kf_construct f; kf_transform f; kf_check f; kf_header f; kf_multipart f; kf_multipart_body f; kf_json_is_dict f].
+
+(* literal_enums does not change the set of generated operations: an enum parameter is accepted in exactly the same locations,
+   required or not, whichever of the two property classes represents it (reflection on the regenerated class facts) *)
+Theorem literal_enum_same_operations : forall cls vt vals l req,
+  validate_location (KEnum cls vt vals) l req = validate_location (KLitEnum vt vals) l req.
+Proof. intros cls vt vals l req. destruct l; reflexivity. Qed.
+
+(* ... and both classes define the same set of wire macros (construct / transform / check_type / transform_header / multipart) *)
+Theorem literal_enum_same_macros : forall cls vt vals, wire_macros (KEnum cls vt vals) = wire_macros (KLitEnum vt vals).
+Proof. intros. reflexivity. Qed.
+
+(* non-vacuity: enum parameters are allowed in all four locations (a path parameter only when required) *)
+Example enum_locations : forall cls vt vals,
+  validate_location (KEnum cls vt vals) LQuery false = true /\ validate_location (KEnum cls vt vals) LHeader false = true /\
+  validate_location (KEnum cls vt vals) LCookie false = true /\ validate_location (KEnum cls vt vals) LPath true = true /\
+  validate_location (KEnum cls vt vals) LPath false = false.
+Proof. intros. repeat split; reflexivity. Qed.
